@@ -623,6 +623,14 @@ impl<'b, 'a: 'b> FmtVisitor<'a> {
     }
 
     fn visit_assoc_item(&mut self, ai: &ast::AssocItem, visitor_kind: ItemVisitorKind) {
+        // `rustfmt::skip::macros(..)` / `rustfmt::skip::attributes(..)` on the associated item.
+        let skip_context_saved = self.skip_context.clone();
+        self.skip_context.update_with_attrs(&ai.attrs);
+        self.visit_assoc_item_inner(ai, visitor_kind);
+        self.skip_context = skip_context_saved;
+    }
+
+    fn visit_assoc_item_inner(&mut self, ai: &ast::AssocItem, visitor_kind: ItemVisitorKind) {
         use ItemVisitorKind::*;
         let assoc_ctxt = match visitor_kind {
             AssocTraitItem => visit::AssocCtxt::Trait,
